@@ -310,6 +310,22 @@ def declare_ctx(rng, rich=True, bare_static=False):
                 if old not in plist:
                     continue
                 plist = plist.replace(old, new, 1)
+        deps = {}
+        if not aliases and rng.random() < 0.2:
+            # a keyword-capable parameter that depends on an earlier positional-or-keyword one: the dependency is provided when
+            # it is given by keyword or consumed by position (a default does not provide it); checked only when the dependent
+            # parameter itself arrives by keyword
+            cands = [q for q in params if q["kind"] in ("pk", "ko") and not q["name"].startswith("_") and q["default"] is not None and q["ann"]]
+            firsts = [q for q in params if q["kind"] == "pk" and not q["name"].startswith("_")]
+            if cands and firsts:
+                q = rng.choice(cands)
+                others = [f for f in firsts if f["name"] != q["name"]]
+                if others:
+                    d0 = rng.choice(others)
+                    old_s = "%s: %s = %s" % (q["name"], q["ann"], q["default"])
+                    if old_s in plist:
+                        plist = plist.replace(old_s, "%s: %s = utype.Param(%s, dependencies=[%r])" % (q["name"], q["ann"], q["default"], d0["name"]), 1)
+                        deps[q["name"]] = [d0["name"]]
         raw_plist = sig_src(params)
         if ctx == "static":
             firstp = next((p for p in params if p["kind"] in ("po", "pk")), None)
@@ -337,11 +353,13 @@ def declare_ctx(rng, rich=True, bare_static=False):
             except Exception:
                 pass
             continue
+        DEPS[name] = deps
         return name, src, params, aliases
     raise RuntimeError("could not declare")
 
 
 REFUSED = []      # declarations Python accepts and the decorator refused: (source, error)
+DEPS = {}         # function name -> {parameter: [parameters it depends on]}
 
 
 def conv(ann, v):
@@ -378,6 +396,10 @@ def bind_oracle(case):
     posn = [p["name"] for p in params if p["kind"] in ("po", "pk")]
     given = set(posn[:len(args)]) | {k for k in canon if any(p["name"] == k and p["kind"] in ("pk", "ko") for p in params)}
     expect, fail = {}, False
+    by_pos = set(posn[:len(args)])
+    for pn, ds in case.get("deps", {}).items():
+        if pn in canon and any(d not in canon and d not in by_pos for d in ds):
+            fail = True        # given by keyword while a dependency is neither given by keyword nor consumed by position
     for p in params:
         nm, ann = p["name"], p["ann"]
         v = bound[nm]
@@ -429,7 +451,7 @@ def gen_oracle_cases(rng, n, per):
             for k, al in aliases.items():
                 if k in kwargs and rng.random() < 0.6:
                     kwargs[al] = kwargs.pop(k)
-            cases.append(dict(fn=name, src=src, params=params, aliases=aliases, args=args, kwargs=kwargs))
+            cases.append(dict(fn=name, src=src, params=params, aliases=aliases, args=args, kwargs=kwargs, deps=DEPS.get(name, {})))
     return cases
 
 
